@@ -658,6 +658,34 @@ def fileexact(run, fx):
         run.held('FILESIB', inst, fn.loc(fr[0]), 'buffer, fread count and comparison are all `%s`' % fn.render(lenarg))
 
 
+def boxguard(run, fx):
+    """LOADERSIB: the lazy loader reads a glyph's collision box whenever the face has boxes (`_boxes`); so does the preloading
+    constructor -- its box loop is not guarded by the NUMBER of sub-boxes it counted (a font whose glyphs have a bounding octabox and
+    no sub-boxes has zero of them and still has boxes: defect F25).  No fact that dominates the constructor's read_box call mentions the
+    variable the read_glyph calls count sub-boxes into."""
+    ctor = [f for f in fx.fns_named('graphite2::GlyphCache::GlyphCache') if not f.f.get('implicit')][0]
+    inst = 'the preloading constructor reads the boxes whatever the number of sub-boxes'
+    rb = calls_in(ctor, 'graphite2::GlyphCache::Loader::read_box')
+    rg = calls_in(ctor, 'graphite2::GlyphCache::Loader::read_glyph')
+    if not rb or not rg:
+        run.broken('LOADERSIB', inst, 'read_box / read_glyph calls of the preloading constructor not found', ctor.where())
+        return
+    cnt = set()
+    for e in rg:
+        for a in e.get('args') or []:
+            x = ctor.strip_all_casts(ctor.N(a)) if a is not None else {}
+            if x.get('k') == 'UnaryOperator' and x.get('op') == '&':
+                y = ctor.strip_all_casts(ctor.N(x['c'][0]))
+                if y['k'] == 'DeclRefExpr':
+                    cnt.add(ctor.render(y))
+    bad = [f for f in dom.facts_at(ctor, rb[0]['i']) if any(c_ in (f[0], f[2]) or (c_ + ' ') in f[0] + ' ' or ('(' + c_) in f[0] for c_ in cnt)]
+    if bad:
+        run.violated('LOADERSIB', inst, ctor.loc(rb[0]), 'the preloading constructor reads the collision boxes only when `%s %s %s` (the sub-box count of all glyphs): a font whose glyphs have a bounding '
+                     'octabox and no sub-boxes gets no boxes with gr_face_preloadGlyphs, while a lazily loading face reads each glyph\'s box on demand -- collision avoidance positions differ' % bad[0][:3])
+    else:
+        run.held('LOADERSIB', inst, ctor.loc(rb[0]), 'guards of the box loop: %s' % sorted({f[0] for f in dom.facts_at(ctor, rb[0]['i'])}))
+
+
 def run(run):
     fx = run.facts('Q0')
     opssize(run, fx)
@@ -669,6 +697,7 @@ def run(run):
         boxsize(run, fx)
         boxcount(run, fx)
         boxall(run, fx)
+        boxguard(run, fx)
         nomutable(run, fx)
         attrcap(run, fx)
     except AnalysisBroken as ex:
